@@ -138,7 +138,7 @@ class Angle(Type):
     @staticmethod
     def send(value, socket):
         # Normalize angle between 0 and 255 and convert to int.
-        UnsignedByte.send(round(256 * ((value % 360) / 360)), socket)
+        UnsignedByte.send(round(256 * ((value % 360) / 360)) % 256, socket)
 
 
 class VarInt(Type):
